@@ -124,3 +124,72 @@ def run(tier="quick", seed=0):
                 return {"trees": n_trees, "problems": problems}
     problems += fft_clause(seed)
     return {"trees": n_trees, "problems": problems}
+
+
+# ------------------------------------------------------------------------------------------ trees on which the sum constraint bites, at the switch
+
+FFT_SCENARIOS = {
+    # (ref, alt) per clone at copy number 1+1, one sample; shape: nested dict of clone indices
+    "siblings-sum-above-one": ([(165, 135), (170, 130)], {0: {}, 1: {}}),
+    "children-exceed-parent": ([(1275, 225), (1275, 225), (1350, 150)], {2: {0: {}, 1: {}}}),
+}
+
+
+def _exact_conv(a, b):
+    from scipy.special import logsumexp
+
+    S, G = a.shape
+    out = np.empty((S, G))
+    for s in range(S):
+        out[s] = [logsumexp(a[s, : k + 1] + b[s, k::-1]) for k in range(G)]
+    return out
+
+
+def _exact_root(shape, values, G):
+    S = next(iter(values.values())).shape[0]
+    log_prior = -np.log(G)
+
+    def log_r(own, children):
+        res = np.full((S, G), log_prior) if own is None else values[own] + log_prior
+        rs = [log_r(c, gc) for c, gc in children.items()]
+        if rs:
+            d = rs[0]
+            for r in rs[1:]:
+                d = _exact_conv(d, r)
+            res = res + np.logaddexp.accumulate(d, axis=1)
+        return res
+
+    return log_r(None, shape)
+
+
+def constraint_at_switch(grids=(999, 1000)):
+    """Root vector of trees that violate the CCF sum constraint (so that the retained part of the children's convolution is far below its cut-off
+    peak), one grid point below the switch to the FFT path and at it, against a log-space evaluation of the defining sums.
+    One record per (scenario, density, grid): the largest |reported - exact| over the entries within 1e-6 of the exact row peak."""
+    from phyclone.data.base import DataPoint as BaseDataPoint
+    from phyclone.data.pyclone import DataPoint, SampleDataPoint, get_major_cn_prior
+    from phyclone.tree import Tree
+
+    out = []
+    for scen, (counts, shape) in FFT_SCENARIOS.items():
+        for density, prec in (("binomial", 1.0), ("beta-binomial", 400.0)):
+            for G in grids:
+                cn, mu, log_pi = get_major_cn_prior(1, 1, 2, error_rate=0.001)
+                data = []
+                for i, (ref, alt) in enumerate(counts):
+                    g = DataPoint(["S"], [SampleDataPoint(ref, alt, cn, mu, log_pi, 1.0)]).to_likelihood_grid(density, G, precision=prec)
+                    data.append(BaseDataPoint(i, g, name="m%d" % i))
+                tree = Tree(data[0].grid_size)
+
+                def build(sh):
+                    return [tree.create_root_node(children=build(ch), data=[data[i]]) for i, ch in sh.items()]
+
+                build(shape)
+                reported = np.array(tree.data_log_likelihood)
+                exact = _exact_root(shape, {d.idx: d.value for d in data}, G)
+                window = exact >= exact.max(axis=1, keepdims=True) + np.log(1e-6)
+                err = float(np.abs(reported - exact)[window].max())
+                k = int(exact[0].argmax())
+                out.append({"scenario": scen, "density": density, "grid": G, "defect": err, "finite": bool(np.all(np.isfinite(reported))),
+                            "peak_index": k, "exact_peak": float(exact[0, k]), "reported_at_peak": float(reported[0, k])})
+    return out
